@@ -79,6 +79,8 @@ func runC10(op string, in []string) string {
 			d, idx := planar.DistanceFromWithIndex(g, p)
 			d2 := planar.DistanceFrom(g, p)
 			return fb(d) + " " + strconv.Itoa(idx) + " " + fb(d2)
+		case "scale":
+			return runC10Scale(r)
 		case "seg":
 			a, b, p := r.pt(), r.pt(), r.pt()
 			return fb(planar.DistanceFromSegmentSquared(a, b, p)) + " " + fb(planar.DistanceFromSegment(a, b, p)) + " " +
@@ -571,6 +573,7 @@ func genC10(c *Ctx) {
 	r := c.Rng
 	defectCases := 0
 	if c.Shard == 0 {
+		c10ScaleFixed(c)
 		for _, g := range orb.AllGeometries {
 			c.Case("ca", gs(g))
 			c.Case("len", gs(g))
@@ -597,10 +600,18 @@ func genC10(c *Ctx) {
 	}
 	for k := 0; k < c.Budget && !c.Exhausted(); k++ {
 		mode := []int{0, 0, 1, 1, 2}[r.Intn(5)]
-		switch r.Intn(8) {
+		// tiny / huge pools: with probability 1/5 the whole case (geometry, query point, translation) is multiplied by
+		// 2^e, e in -70..-8, 8..70 (sometimes +-200) - exact, so the exact (rational) spec and the bit-for-bit Float twin
+		// judge it as before; on the integer pools the coordinates stay on ONE dyadic lattice n·2^e, |n| <= 2^20, where
+		// areas and squared distances are exact
+		e := c10Pool(r)
+		switch r.Intn(10) {
+		case 8, 9: // scale invariance by powers of two, every kind, bit for bit
+			c10ScaleCase(c, mode)
 		case 0: // ring variants: rotations, reversal, closing, integer translation
 			if r.Intn(4) == 0 { // general-position floats, float translation: judged within relative 1e-9
 				rg, t := c10FloatRing(r)
+				rg, t = orb.Ring(c10ScaleGeom(rg, e).(orb.Ring)), c10ScalePt(t, e)
 				c.Case("ringvar", spts(rg)+" "+fb(t[0])+" "+fb(t[1]))
 				continue
 			}
@@ -618,6 +629,7 @@ func genC10(c *Ctx) {
 			if r.Intn(3) == 0 {
 				t = orb.Point{float64(r.Intn(21) - 10), float64(r.Intn(21) - 10)}
 			}
+			rg, t = orb.Ring(c10ScaleGeom(rg, e).(orb.Ring)), c10ScalePt(t, e)
 			c.Case("ringvar", spts(rg)+" "+fb(t[0])+" "+fb(t[1]))
 		case 1, 2: // area / centroid through the generic entry points
 			var g orb.Geometry
@@ -634,10 +646,10 @@ func genC10(c *Ctx) {
 				}
 				defectCases++
 			}
-			c.Case("ca", gs(g))
+			c.Case("ca", gs(c10ScaleGeom(g, e)))
 		case 3:
 			g := c10Geom(r, mode, 0)
-			c.Case("len", gs(g))
+			c.Case("len", gs(c10ScaleGeom(g, e)))
 		case 4, 5, 6:
 			var g orb.Geometry
 			if r.Intn(40) == 0 {
@@ -651,6 +663,7 @@ func genC10(c *Ctx) {
 			if mode != 2 {
 				q = clampPt(q)
 			}
+			g, q = c10ScaleGeom(g, e), c10ScalePt(q, e)
 			c.Case("dist", gs(g)+" "+fb(q[0])+" "+fb(q[1]))
 		default:
 			a, b := c10Pt(r, mode), c10Pt(r, mode)
@@ -661,6 +674,7 @@ func genC10(c *Ctx) {
 			if mode != 2 {
 				q = clampPt(q)
 			}
+			a, b, q = c10ScalePt(a, e), c10ScalePt(b, e), c10ScalePt(q, e)
 			c.Case("seg", fb(a[0])+" "+fb(a[1])+" "+fb(b[0])+" "+fb(b[1])+" "+fb(q[0])+" "+fb(q[1]))
 		}
 	}
